@@ -157,6 +157,26 @@ def user_cases(rng, n):
     return out
 
 
+def same_object_cases():
+    """ONE object on both sides of a comparison (round 5, seed C16_I: an identity fast path in `__eq__` answered True
+    for two proxies of the same NaN): values whose comparison with THEMSELVES is not simply True - NaN, containers of
+    NaN, an infinity - and ordinary ones, as two proxies of the one object and as the very same proxy twice.
+    Search-only (the model has no notion of object identity)."""
+    def V(k, e):
+        return {"kind": k, "expr": e}
+    vals = [V("float", "1e999 - 1e999"), V("list", "[1e999 - 1e999]"), V("tuple", "(1e999 - 1e999, 1)"),
+            V("dict", "{1: 1e999 - 1e999}"), V("float", "1e999"), V("float", "2.5"), V("int", "3"), V("str", "'ab'"),
+            V("list", "[1, 2]"), V("dict", "{1: 2}"), V("set", "{1, 2}"), V("none", "None"), V("complex", "(1+2j)")]
+    out = []
+    for v in vals:
+        for op in ("__eq__", "__ne__", "__lt__", "__le__", "__gt__", "__ge__"):
+            for placement in ("both", "same-proxy"):
+                for spelling in ("infix", "operator"):
+                    out.append({"family": "comparison", "op": op, "left": v, "right": v, "placement": placement,
+                                "same": True, "spelling": spelling, "classes": []})
+    return out
+
+
 def extra_cases(rng, tier):
     """Sampled-only operations (no family theorem): 3-argument pow, round(x, n), format specs, f-strings,
     sum/sorted, and the replacement len()."""
@@ -332,6 +352,7 @@ def search(rng, tier, broken, corr):
     cases = list(getattr(corr, "cases", None) or (corpus_cases() + builtin_cases(rng, tier)))
     cases += corpus_cases() if getattr(corr, "cases", None) is None else []
     cases += extra_cases(rng, tier)
+    cases += same_object_cases()
     n_user = (600 if tier == "quick" else 12000) * (3 if broken else 1)
     cases += user_cases(rng, n_user)
     pc.COLLIDE_STATS.clear()
